@@ -3,6 +3,7 @@ import itertools
 from vlib import xhex, rnd_bytes
 
 THEOREMS = ["C18_unhex_hex", "C18_hex_unhex", "C18_rejects", "C18_total"]
+RELEASE = True          # debug and release builds of the harness (debug_assert!, overflow checks, cfg(debug_assertions))
 RULE = ("HEX: every byte string of length <= 2 (exhaustive) + seeded random longer ones; UNHEX: every string of "
         "length <= 3 (quick) / <= 4 (thorough) over the 26-symbol alphabet {0-9 a-f A-F + - space g e-acute euro} + random "
         "strings up to 40 symbols; a case is non-trivial when its line is distinct and it is a HEX case or an UNHEX case "
